@@ -24,7 +24,7 @@ RULE = ("case = (exponential model | copula of exponential models d = 2, 3, cred
         "payoff] by quadrature; non-trivial = default intensity > 1e-9; distinct = distinct seed")
 ASSUMPTIONS = ["thresholds strictly between the left truncation and -h (C13 domain); copulas with finite-variation margins",
                "copula callable trusted (C11); tail integrals by quadrature"]
-REQUIRED_COUNTERS = ["chain_vs_closed_form_1d", "chain_vs_region_mass_nd", "closed_form_vs_inclusion_exclusion", "monotonicity_checks",
+REQUIRED_COUNTERS = ["chain_vs_closed_form_1d", "chain_vs_region_mass_nd", "closed_form_vs_inclusion_exclusion", "monotonicity_checks", "default_rate_of_the_adapted_tree_sampler", "first_to_default_times_on_simulated_paths",
                      "relation_checks", "inverse_roundtrips", "cds_expectation_checks", "threshold_on_cell_boundary"]
 MIN_NONTRIVIAL = {"quick": 30, "thorough": 400}
 THOROUGH_ROUNDS = 20      # the thorough tier runs the generators this many times (different seeds)
@@ -194,6 +194,60 @@ def _nd(case, R, rng):
             continue
         if any(float(grid.axes[k][s[k]]) < levels[k] for k in range(d)):
             default_rate += float(f(tuple(si - oi for si, oi in zip(s, origin)))) * lam
+    # simulated paths of this credit chain: the first-to-default time handed to the CDS payoff is the first jump time at which some name
+    # jumps below its threshold (i.e. the first visit of a default state)
+    try:
+        from rpylib.product.product import Product
+        from rpylib.product.underlying import NthDefaultTimes
+        from rpylib.product.payoff import PayoffOnTheFly, PayoffDates
+
+        pay = PayoffOnTheFly(lambda t_: t_)
+        pay.payoff_dates_type = PayoffDates.STOCHASTIC
+        prod_ = Product(payoff_underlying=NthDefaultTimes(list(levels), 1), payoff=pay, maturity=float(T))
+        prod_.update(proc.process_representation)
+        np.random.seed(case["seed"] % (2**31))
+        proc.initialisation(prod_)
+        proc.pre_computation(8, prod_)
+        for _ in range(8):
+            path = proc.simulate_one_path()
+            times = np.asarray(path.jump_times, dtype=float)
+            jp = np.asarray(path.jump_path, dtype=float).reshape(d, -1)
+            full = proc.deterministic_path(times) + path.value()
+            got_tau = float(np.asarray(prod_.underlying_value(times, full, path.value_jump())).reshape(-1)[0])
+            inc = np.diff(jp, axis=1)
+            hits = [int(np.where(inc[k] < levels[k])[0][0]) + 1 for k in range(d) if np.any(inc[k] < levels[k])]
+            want_tau = float(times[min(hits)]) if hits else math.inf
+            R.hit("first_to_default_times_on_simulated_paths")
+            if got_tau != want_tau:
+                R.violation("first-to-default-time-not-first-visit-of-a-default-state", f"{label}: simulated credit-chain path with {times.size - 2} jumps: "
+                            f"first-to-default time {got_tau!r}, first jump below a threshold at {want_tau!r}", wit)
+                break
+    except Exception as exc:  # noqa: BLE001
+        R.violation("credit-chain-simulation-raises", f"{label}: {type(exc).__name__}: {exc}", wit)
+    # the same rate realised by the other sampling method offered for copula chains (its law is measured black-box)
+    rate_bsta = None
+    if math.prod(sizes) <= 400:
+        from .. import piecewise as PW, samplers as S_
+
+        proc2, _ = C.build_chain(model, grid, "BINARYSEARCHTREEADAPTED", True)
+        ps = float(proc2.sampling.uniform.high)
+        f1 = S_.single_u_function("BINARYSEARCHTREEADAPTED", proc2.sampling)
+
+        def f_safe(u):
+            try:
+                return f1(u * ps)
+            except Exception as exc:  # noqa: BLE001  (a raise on a sliver of uniforms is C02's subject)
+                return ("raises", type(exc).__name__)
+
+        M = PW.measure(f_safe, PW.standard_probes(math.prod(sizes), None, factor=12))
+        rate_bsta = 0.0
+        for inc, length in M.lengths().items():
+            if inc and inc[0] == "raises":
+                continue
+            st_ = [i + oi for i, oi in zip(inc, origin)]
+            if all(0 <= st_[k] < sizes[k] for k in range(d)) and any(float(grid.axes[k][st_[k]]) < levels[k] for k in range(d)):
+                rate_bsta += length * float(proc2.intensity_of_jumps)
+        R.hit("default_rate_of_the_adapted_tree_sampler")
     oracle = C.CopulaMassOracle(cm, model.copula, model.models, [(-math.inf, math.inf)] * d)
     trunc = [tuple(float(v) for v in tr) for tr in grid.truncations]
 
@@ -213,6 +267,9 @@ def _nd(case, R, rng):
     if not (abs(default_rate - theta_box) <= tol):
         R.violation(f"nd-default-rate-vs-region-mass-{'sym' if case['sym'] else 'asym'}-{d}d", f"{label}: total rate of the chain states with a coordinate "
                     f"below its threshold = {default_rate!r}, Levy mass of the default region inside the box (inclusion-exclusion) = {theta_box!r}", wit)
+    if rate_bsta is not None and not (abs(rate_bsta - theta_box) <= tol + 1e-9 * lam):
+        R.violation(f"nd-default-rate-vs-region-mass-adapted-tree-{d}d", f"{label}: total rate of the default states realised by the BINARYSEARCHTREEADAPTED "
+                    f"sampler (measured law) = {rate_bsta!r}, Levy mass of the default region inside the box = {theta_box!r} (INVERSION: {default_rate!r})", wit)
     cf = CFLevyCopulaModel(model)
     theta = float(cf._theta(levels))
     theta_ref = incl_excl([-math.inf] * d, [math.inf] * d)
